@@ -128,6 +128,8 @@ class SqliteSem:
         return env
 
     def tref(self, t) -> Env:
+        if "joingroup" in t:
+            return self.from_clause(t["joingroup"])
         if "table" in t:
             if t["table"] not in self.tables:
                 raise Unsupported(f"unknown table {t['table']}")
